@@ -72,6 +72,14 @@ def arg_successor(k, t, field, sense):
     if kf is None or kf.kind != "ARG" or kf.of is None:
         if kf is not None and kf.kind == "LAST":
             return False, "follows the LAST successor visited, not the arg-%s successor" % sense
+        if kf is not None and kf.kind == "OTHER" and isinstance(getattr(kf, "term", None), tuple):
+            t_ = kf.term
+            from ..symx import mentions as _m
+            tol = _m(t_, lambda x: (x[0] == "call" and x[1] in ("math.isclose", "isclose")) or
+                     (x[0] == "cmp" and x[1] in ("<", "<=") and _m(x, lambda y: y[0] == "call" and y[1] == "abs") and _m(x, lambda y: y[0] == "acc")))
+            if t_[0] == "ite" and tol and _m(t_[1], lambda x: x[0] == "acc"):
+                return False, ("follows a successor whose value is within a TOLERANCE of the running optimum (`%s`): a successor that is smaller than the optimum by less than the tolerance "
+                               "replaces it, while the reported strategy lists the exact optimum only" % show(t_[1])[:120])
         return None, "`%s` is not an ARG fold (%s)" % (show(arg_t), kf)
     if kf.of.sense != sense:
         return False, "follows the arg-%s successor, specification: arg-%s" % (kf.of.sense, sense)
@@ -296,6 +304,10 @@ def _reaches_all_returns(cfg, node):
 
 
 def run(ctx, chk):
+    # observed through the batch driver: run_games()[name]['prob_min_rew', 'rew_min_reach'] must be this game's, this mode's value
+    from . import C12 as _C12
+    _C12.observe(ctx, chk, "C14.obs", ['prob_min_rew', 'rew_min_reach'])
+    shared.rule_no_sweep_memo(ctx, chk, "C14.1b")
     r1_forms(ctx, chk)
     r2_precision(ctx, chk)
     r3_seeding(ctx, chk)
